@@ -104,11 +104,11 @@ CHECKS = {
     "C20": {
         "test": "TestC20", "level": "exploration", "engine": "signer",
         "technique": "stateful model-based property testing of SFilePV plus a model-free history invariant, with reload between requests",
-        "level_text": "Exploration with a reference model and a model-free invariant: generated sequences (<= 40) of SignVote/SignProposal requests with heights/rounds/steps moving forward, repeating and regressing, equal/different/nil block ids, timestamps and chain ids, with LoadSFilePV from the key and state files between any two requests. Model: regress => error; same HRS and same message => same signature; same HRS differing only in timestamp => original signature and timestamp; same HRS otherwise => error; advance => signature verifies. Invariant over all released signatures: never two different messages for one HRS; after every reload the on-disk record equals the last released HRS.",
-        "level_note": "A crash between the file rename and the return inside saveSigned is equivalent to one of the two neighbouring states and is not separately injected. Only the vote types Tendermint passes are generated.",
+        "level_text": "Exploration with a reference model and a model-free invariant: generated sequences (<= 40) of SignVote/SignProposal requests with heights/rounds/steps moving forward, repeating and regressing, equal/different/nil block ids, timestamps and chain ids, with LoadSFilePV from the key and state files between any two requests, and with an injected fault on 8% of the requests: the state file cannot be replaced while the request is served (the durable write fails, the signer panics = the process dies), after which no signature may have been released, the durable record must still be the previous one and a freshly loaded signer continues. Model: regress => error; same HRS and same message => same signature; same HRS differing only in timestamp => original signature and timestamp; same HRS otherwise => error; advance => signature verifies. Invariant over all released signatures: never two different messages for one HRS; after every reload the on-disk record equals the last released HRS.",
+        "level_note": "The injected fault is a failing atomic replace of the state file (a non-empty directory in its place); a crash after the rename succeeded is equivalent to the state after the request and is covered by the reloads. Only the vote types Tendermint passes are generated.",
         "quick": {"checks": 3000, "timeout": 600},
         "thorough": {"checks": 40000, "shards": 15, "timeout": 3000},
-        "rule": "rapid-generated request sequences; non-trivial = a conflicting same-HRS request or a timestamp-only repeat issued right after a reload; distinct = distinct request-sequence hashes",
+        "rule": "rapid-generated request sequences; non-trivial = a conflicting same-HRS request or a timestamp-only repeat issued right after a reload (label feat:durable_write_failed counts sequences with an injected write fault on a request that needed a fresh signature); distinct = distinct request-sequence hashes",
         "assumptions": ["trusted base: rapid v1.3.0, tendermint's canonical sign-bytes and secp256k1 verification"],
     },
 }
